@@ -13,6 +13,11 @@ theorem runInv_init (nq ng max : Nat) : RunInv (initState nq ng max) := by
     split at hl <;> simp at hl
     subst hl; simp at hm
 
+theorem runInv_initP (ps : List Bool) (ng max : Nat) : RunInv (initStateP ps ng max) := by
+  refine ⟨?_, ?_⟩
+  · intro a j q hr hs; simp [initStateP, initState, State.jobRan] at hs
+  · intro q l j hl hm; rw [qjobs_initP hl] at hm; cases hm
+
 theorem runInv_setChild {s : State} (h : RunInv s) (p : Nat) (c : Option Nat) :
     RunInv (match s.acts[p]? with | some pv => s.setAct p { pv with child := c } | none => s) := by
   split
@@ -104,6 +109,7 @@ theorem runInv_ret {s s' : State} {a r : Nat} (h : RunInv s) (hs : retStep s a =
 theorem runInv_reachable {s : State} (hr : Reachable s) : RunInv s := by
   induction hr with
   | init nq ng max => exact runInv_init nq ng max
+  | initP ps ng max => exact runInv_initP ps ng max
   | step l hprev hstep ih =>
     have hh := holderInv_reachable hprev
     obtain ⟨hw, hf⟩ := fullInv_reachable hprev
